@@ -1,8 +1,8 @@
 /-
 C42 helper lemmas: the redirections of the fixed code never panic, for a form
 that owns no channel (every form that is not followed by another form of its
-pipeline; the owned channel of a pipe-output port is covered by the
-correspondence only).
+pipeline), with no hypothesis on the frame.  The general case (a form that owns
+the channel of its output pipe) is `Chan.lean`.
 -/
 import ElvProofs.C42.Exec
 namespace C42
